@@ -500,11 +500,18 @@ def normalize_contraction_generic_tuple(red_op, bin_op, reduced_vars, terms):
         if (v.red_op is ops.null and bin_op is v.bin_op) or (
             bin_op is ops.null and v.red_op in (red_op, ops.null)
         ):
-            red_op = v.red_op if red_op is ops.null else red_op
-            bin_op = v.bin_op if bin_op is ops.null else bin_op
+            new_red_op = v.red_op if red_op is ops.null else red_op
+            new_bin_op = v.bin_op if bin_op is ops.null else bin_op
+            if (
+                new_red_op is not ops.null
+                and new_bin_op is not ops.null
+                and new_red_op is not new_bin_op
+                and (new_red_op, new_bin_op) not in DISTRIBUTIVE_OPS
+            ):
+                continue  # e.g. a sum of maxima is not a sum-max contraction
             new_terms = terms[:i] + v.terms + terms[i + 1 :]
             return Contraction(
-                red_op, bin_op, reduced_vars | v.reduced_vars, *new_terms
+                new_red_op, new_bin_op, reduced_vars | v.reduced_vars, *new_terms
             )
 
     # nothing more to do, reflect
